@@ -1,11 +1,15 @@
 #!/bin/bash
-# usage: tools_mut.sh <file-in-repo> <sed-expr> <ID> [tier]   — apply a one-off mutation to /repo, run the check, revert.
-f=$1; expr=$2; id=$3; tier=${4:-quick}
-cd /repo || exit 9
-if [ -n "$(git status --porcelain)" ]; then echo "repo dirty"; exit 9; fi
+# usage: tools_mut.sh <worktree-name> <file-in-repo> <sed-expr> <ID> [tier]
+# Applies a one-off mutation in a scratch worktree of /repo (created on demand under /tmp/mut/<name>), runs the check against it, reverts.
+name=$1; f=$2; expr=$3; id=$4; tier=${5:-quick}
+wt=/tmp/mut/$name
+if [ ! -d $wt ]; then mkdir -p /tmp/mut; git -C /repo worktree add --detach $wt HEAD >/dev/null 2>&1 || exit 9; fi
+cd $wt || exit 9
+git checkout -q --detach $(git -C /repo rev-parse HEAD) 2>/dev/null
+git checkout -- .
 sed -i "$expr" "$f"
 if [ -z "$(git diff --stat)" ]; then echo "MUTATION DID NOT APPLY"; exit 9; fi
 git diff | grep '^[+-]' | grep -v '^+++\|^---'
-cd /verif && ./check $id $tier 2>&1 | grep -E "VIOLATION|KNOWN|evaluations=|BUILD|INCONCL" | head -5
+cd /verif && VERIF_REPO=$wt ./check $id $tier 2>&1 | grep -E "VIOLATION|KNOWN|evaluations=|BUILD|INCONCL" | head -5
 echo "rc=${PIPESTATUS[0]}"
-cd /repo && git checkout -- . 
+cd $wt && git checkout -- .
